@@ -17,7 +17,7 @@ From Coq Require Import List NArith Bool.
 From V.gen Require Consts.
 From V.C14 Require Model Proofs.
 From V.C17 Require Model.
-From V.C16 Require Import Model Proofs Obl Bound Chan Compose Comp.
+From V.C16 Require Import Model Proofs Obl Bound Chan Exec Time Compose Comp.
 Import ListNotations.
 Open Scope N_scope.
 
@@ -270,7 +270,8 @@ Theorem C16_get_record_local :
   fst (cstep wc w (UCmd q (UCGet qr rk) target)) =
   match qr, hit with
   | QOne, true => (w, [OPartial q (g_local g) LOCAL_REC; OGetRecSuccess q])
-  | _, _ => (mkW lookup (w_rt w) (w_store w), if hit then [OPartial q (g_local g) LOCAL_REC] else [])
+  | _, _ => (mkW lookup (w_rt w) (w_store w) (w_prov w) (w_timers w),
+             if hit then [OPartial q (g_local g) LOCAL_REC] else [])
   end.
 Proof. exact get_record_step. Qed.
 Print Assumptions C16_get_record_local.
@@ -281,13 +282,14 @@ Theorem C16_store_records_live :
 Proof. exact reach_SI. Qed.
 Print Assumptions C16_store_records_live.
 
-(* a record this node stored (store_record, or the local half of put_record) is found by every later
-   GetRecord(Quorum::One), whatever happened in between, as long as the store's capacity is not exceeded *)
+(* a record this node stored (`stores`: store_record, the local half of put_record, or — with automatic
+   validation — a PUT_VALUE of a remote peer) is found by every later GetRecord(Quorum::One), whatever
+   happened in between, as long as the store's capacity is not exceeded *)
 Theorem C16_put_then_get :
   forall wc m L us1 u us2 q rk target,
   1 <= wc_ttl wc -> REC_LEN < V.C17.Model.max_size (wc_scfg wc) ->
   N.of_nat (length (us1 ++ u :: us2)) <= V.C17.Model.max_records (wc_scfg wc) ->
-  (u = UStoreRecord rk \/ exists q0 qr0 t0, u = UCmd q0 (UCPut qr0 rk) t0) ->
+  stores wc (fst (crun wc (w0 wc m L) us1)) u rk ->
   let w := fst (crun wc (w0 wc m L) (us1 ++ u :: us2)) in
   fst (cstep wc w (UCmd q (UCGet QOne rk) target)) =
   (w, [OPartial q (g_local (wc_g wc)) LOCAL_REC; OGetRecSuccess q]).
@@ -303,14 +305,48 @@ Theorem C16_compose_no_wait :
 Proof. exact c_no_wait. Qed.
 Print Assumptions C16_compose_no_wait.
 
+(* `cstarted wc w q us` = how often the composed run starts an operation with id q: user commands,
+   put_record_to_peers, and the provider refreshes that are due when a timer of the store fires *)
+Theorem C16_compose_one_terminal :
+  forall wc m us q,
+  ufresh [] us ->
+  let W0 := w0 wc m (length (lkey wc)) in
+  (terminals q (snd (crun wc W0 us)) + (if live q (w_st (fst (crun wc W0 us))) then 1 else 0) =
+   cstarted wc W0 q us)%nat /\
+  (cstarted wc W0 q us <= ustarted q us)%nat /\ (cstarted wc W0 q us <= 1)%nat.
+Proof. exact c_one_terminal. Qed.
+Print Assumptions C16_compose_one_terminal.
+
 Theorem C16_compose_terminates :
   forall wc m us q,
   1 <= g_alpha (wc_g wc) -> ufresh [] us ->
-  let w := fst (crun wc (w0 wc m (length (lkey wc))) us) in
+  let W0 := w0 wc m (length (lkey wc)) in
+  let w := fst (crun wc W0 us) in
   idle (w_st w) -> quiescent (w_st w) = true ->
-  terminals q (snd (crun wc (w0 wc m (length (lkey wc))) us)) = ustarted q us /\ (ustarted q us <= 1)%nat.
+  terminals q (snd (crun wc W0 us)) = cstarted wc W0 q us /\ (cstarted wc W0 q us <= 1)%nat.
 Proof. exact c_terminates. Qed.
 Print Assumptions C16_compose_terminates.
+
+(* fair termination with the explicit bound, for composed histories: the peer universe is the key table
+   (plus the label of unknown keys); after ANY composed history us0, every continuation us1 without new
+   work whose elaborated events are productive (or time passing) has at most budget(|U|, k, us0) events
+   and, when nothing productive is enabled any more, every started operation — the due refreshes
+   included — has exactly one terminal event *)
+Theorem C16_compose_fair_terminates :
+  forall wc m U us0 us1 q,
+  keys_ok wc -> 1 <= g_alpha (wc_g wc) ->
+  (forall p, In p (UNKNOWN :: map fst (wc_keys wc)) -> In p U) ->
+  ufresh [] (us0 ++ us1) -> Forall (ucmd_ok (wc_g wc)) us0 -> Forall (uev_in_U U) (us0 ++ us1) ->
+  let W0 := w0 wc m (length (lkey wc)) in
+  let w1 := fst (crun wc W0 us0) in
+  let es1 := elabs wc w1 us1 in
+  fair_run (wc_g wc) (w_st w1) es1 ->
+  (length (work es1) <= budget (length U) (wc_g wc) (elabs wc W0 us0))%nat /\
+  (stuck (w_st (fst (crun wc w1 us1))) ->
+   terminals q (snd (crun wc W0 (us0 ++ us1))) = cstarted wc W0 q (us0 ++ us1) /\
+   (cstarted wc W0 q (us0 ++ us1) <= 1)%nat).
+Proof. exact c_fair_terminates. Qed.
+Print Assumptions C16_compose_fair_terminates.
 
 Theorem C16_compose_at_most_one :
   forall wc m us k q p,
@@ -331,6 +367,201 @@ Theorem C16_compose_quorum_honest :
     (forall p, In p S -> In (q, p) (put_sends (wc_g wc) (st0 m) es) /\ In p targets).
 Proof. exact c_quorum_honest. Qed.
 Print Assumptions C16_compose_quorum_honest.
+
+(* a connection closes while requests to the peer are outstanding: every pending-substream action for
+   the peer is gone (its query was told of the failure), pending_dials and the executor are untouched,
+   and a query that still waits for the peer is owed by an executor future (the request was already on a
+   substream: its read ends with an error or with the 15 s timeout) or by a queued dial — never by nothing *)
+Theorem C16_closed_while_outstanding :
+  forall g m es p,
+  1 <= g_alpha g ->
+  let s := fst (run g (st0 m) es) in
+  aget p (conn s) <> None ->
+  let s' := fst (fst (step g s (EClosed p))) in
+  aget p (peers s') = None /\ futs s' = futs s /\ pdial s' = pdial s /\
+  forall q x, aget q (eng s') = Some x -> In p (waiting x) ->
+    owes_dial s' (negb (is_track x)) q p \/ owes_fut s' (negb (is_track x)) q p.
+Proof. exact closed_discharges. Qed.
+Print Assumptions C16_closed_while_outstanding.
+
+(* ---- "within bounded time" ---- *)
+
+(* Obligations carry their time of birth: a queued dial (per peer), a pending substream (per id), an
+   executor future (per id).  `timed D`: the clock passes only while the loop waits with the engine
+   drained, and never more than D beyond the birth of an obligation that is still outstanding (dials and
+   substream requests are answered within D by the transport layer; futures complete within
+   WRITE_TIMEOUT + READ_TIMEOUT by C16_executor_bounded).  Then in a fair schedule without new work the
+   event after k productive ones happens at most D * (k + 1) after the start ... *)
+Theorem C16_bounded_time :
+  forall D g m es0 a e b,
+  1 <= g_alpha g -> is_tick e = false ->
+  let s0 := fst (run g (st0 m) es0) in
+  fair_run g s0 (a ++ e :: b) ->
+  timed D g s0 (restamp (now s0) [] (okeys s0)) (a ++ e :: b) ->
+  now (fst (run g s0 a)) <= now s0 + D * N.of_nat (S (length (work a))).
+Proof. exact bounded_time. Qed.
+Print Assumptions C16_bounded_time.
+
+(* ... hence every event of such a schedule, in particular every terminal event, happens within
+   D * budget(n, k, es0) of its start: the explicit time bound of the property *)
+Theorem C16_bounded_time_budget :
+  forall D U g m es0 a e b,
+  1 <= g_alpha g -> fresh_ids [] (es0 ++ a ++ e :: b) -> cmds_ok g es0 ->
+  evs_in_U U es0 -> evs_in_U U (a ++ e :: b) -> is_tick e = false ->
+  let s0 := fst (run g (st0 m) es0) in
+  fair_run g s0 (a ++ e :: b) ->
+  timed D g s0 (restamp (now s0) [] (okeys s0)) (a ++ e :: b) ->
+  now (fst (run g s0 a)) <= now s0 + D * N.of_nat (budget (length U) g es0).
+Proof. exact bounded_time_budget. Qed.
+Print Assumptions C16_bounded_time_budget.
+
+(* ---- requests of remote peers, served by the same loop ---- *)
+
+(* inbound traffic (a remote peer opens a substream; a future without query id reads a request or
+   finishes its reply) neither starts, ends nor touches an operation of the user: the engine,
+   pending_dials, pending_substreams and every pending action are unchanged, only IncomingRecord /
+   IncomingProvider are emitted, every future that works for a query stays in flight.  (A FAILED inbound
+   future calls disconnect_peer like any failed future: that case is covered by the theorems above.) *)
+Theorem C16_inbound_isolated :
+  forall g s e,
+  inbound_ev s e ->
+  let s' := fst (fst (step g s e)) in
+  let o := snd (fst (step g s e)) in
+  eng s' = eng s /\ pdial s' = pdial s /\ psub s' = psub s /\
+  (forall p acts, aget p (peers s) = Some acts -> aget p (peers s') = Some acts) /\
+  (forall x, In x o -> x = OIncomingRecord \/ x = OIncomingProvider) /\
+  (forall f, In f (futs s) -> f_q f <> None -> In f (futs s')).
+Proof. exact inbound_isolated. Qed.
+Print Assumptions C16_inbound_isolated.
+
+(* what the node answers: the closer peers of a FIND_NODE / GET_VALUE / GET_PROVIDERS reply are
+   RoutingTable::closest of the current table — the function that seeds the node's own lookups: never the
+   local peer, at most k — and GET_VALUE carries the record exactly when the store has it *)
+Theorem C16_inbound_reply :
+  forall wc w id rq b ps,
+  keys_ok wc -> V.C14.Proofs.Inv (lkey wc) (wc_K wc) (w_rt w) -> SI wc (w_store w) -> 1 <= wc_ttl wc ->
+  reply_of wc w (UInReq id rq) = Some (b, ps) ->
+  exists target,
+    (rq = IFindNode target \/ (exists rk, rq = IGetValue rk target) \/ rq = IGetProviders target) /\
+    ps = seeds_of wc (w_rt w) target /\ ~ In (g_local (wc_g wc)) ps /\
+    (length ps <= N.to_nat (g_k (wc_g wc)))%nat /\
+    (b = true <-> exists rk, rq = IGetValue rk target /\ stored (w_store w) rk).
+Proof. exact inbound_reply. Qed.
+Print Assumptions C16_inbound_reply.
+
+(* a record this node stored (store_record, or the local half of put_record) is served to every remote
+   GET_VALUE that comes later *)
+Theorem C16_serve_after_put :
+  forall wc m L us1 u us2 rk id target,
+  1 <= wc_ttl wc -> REC_LEN < V.C17.Model.max_size (wc_scfg wc) ->
+  N.of_nat (length (us1 ++ u :: us2)) <= V.C17.Model.max_records (wc_scfg wc) ->
+  stores wc (fst (crun wc (w0 wc m L) us1)) u rk ->
+  let w := fst (crun wc (w0 wc m L) (us1 ++ u :: us2)) in
+  inbound_read (w_st w) id = true ->
+  reply_of wc w (UInReq id (IGetValue rk target)) = Some (true, seeds_of wc (w_rt w) target).
+Proof. exact serve_after_put. Qed.
+Print Assumptions C16_serve_after_put.
+
+(* IncomingRecordValidationMode: in the Manual mode no event of the loop writes the store — an inbound
+   PUT_VALUE only raises IncomingRecord and the user decides with store_record; in the Automatic mode the
+   record is in the store as soon as the request has been read *)
+Theorem C16_manual_validation :
+  forall wc w u,
+  wc_vauto wc = false ->
+  (exists e, u = UEv e) \/ (exists id rk, u = UInReq id (IPutValue rk)) ->
+  w_store (fst (fst (cstep wc w u))) = w_store w.
+Proof. exact manual_validation. Qed.
+Print Assumptions C16_manual_validation.
+
+Theorem C16_auto_validation :
+  forall wc w id rk,
+  wc_vauto wc = true -> inbound_read (w_st w) id = true ->
+  w_store (fst (fst (cstep wc w (UInReq id (IPutValue rk))))) =
+  V.C17.Model.put (wc_scfg wc) (w_store w) (local_record wc rk).
+Proof. exact auto_validation. Qed.
+Print Assumptions C16_auto_validation.
+
+(* RoutingTableUpdateMode::Manual: the peers of replies are reported (RoutingTableUpdate) but not
+   inserted — after every composed history every peer in the routing table was put there by an
+   add_known_peer call of the user *)
+Theorem C16_manual_routing_table :
+  forall wc m L us n,
+  wc_auto wc = false ->
+  In n (concat (w_rt (fst (crun wc (w0 wc m L) us)))) -> V.C14.Model.n_key n <> [] ->
+  exists p, In (UAddKnownPeer p true) us /\ V.C14.Model.n_key n = pkey wc p.
+Proof. exact manual_table. Qed.
+Print Assumptions C16_manual_routing_table.
+
+(* ---- the store's refresh timers ---- *)
+
+(* a refresh timer that fires starts an ADD_PROVIDER operation exactly when the key is still provided —
+   the last start_providing(rk) has not been followed by stop_providing(rk) — with the quorum of that
+   call and seeds from the current table; and then a new timer is armed *)
+Theorem C16_refresh_due :
+  forall wc m L us q rk target,
+  let w := fst (crun wc (w0 wc m L) us) in
+  In rk (w_timers w) ->
+  fst (fst (elab wc w (UFire q rk target))) =
+  match last_prov rk None us with
+  | Some qr => ECmd q (CRefresh qr) (dists_of wc target) (seeds_of wc (w_rt w) target)
+  | None => ENop
+  end /\
+  (last_prov rk None us <> None -> In rk (w_timers (fst (fst (cstep wc w (UFire q rk target)))))).
+Proof. exact refresh_due. Qed.
+Print Assumptions C16_refresh_due.
+
+(* as long as a key is provided a timer is armed for it: the refresh will come *)
+Theorem C16_provided_has_timer :
+  forall wc m L us rk,
+  last_prov rk None us <> None -> In rk (w_timers (fst (crun wc (w0 wc m L) us))).
+Proof. exact provided_has_timer. Qed.
+Print Assumptions C16_provided_has_timer.
+
+(* ---- the executor's futures and their timers (Exec.v) ---- *)
+
+(* whatever the substream does, the QueryResult of a future is one the model of the loop accepts for its
+   kind, and every accepted result is the outcome of some behaviour: the abstract completion events of
+   the theorems above are exactly the executor's outcomes *)
+Theorem C16_executor_sound :
+  forall T k w r, res_ok k (fst (exec T k w r)) = true.
+Proof. exact exec_sound. Qed.
+Print Assumptions C16_executor_sound.
+
+Theorem C16_executor_complete :
+  forall T k res,
+  0 < t_w T -> 0 < t_r T -> res_ok k res = true -> exists w r, fst (exec T k w r) = res.
+Proof. exact exec_complete. Qed.
+Print Assumptions C16_executor_complete.
+
+(* no future outlives WRITE_TIMEOUT + READ_TIMEOUT: the environment's obligation "every executor future
+   completes" is discharged by the executor itself, within 30 s on the shipped constants *)
+Theorem C16_executor_bounded :
+  forall T k w r, snd (exec T k w r) <= t_w T + t_r T.
+Proof. exact exec_bounded. Qed.
+Print Assumptions C16_executor_bounded.
+
+(* a peer that takes the request and never answers: the read timeout ends the wait with ReadFailure
+   (AssumeSendSuccess for the PUT_VALUE future), READ_TIMEOUT after the write *)
+Theorem C16_executor_silent_peer :
+  forall T k t,
+  t < t_w T ->
+  exec T k (WAccept t) RNever =
+  match k with
+  | FReqResp => (RReadFail, t + t_r T)
+  | FReqEat => (RAssume, t + t_r T)
+  | FInRead => (RReadFail, t_r T)
+  | _ => (RSendOk, t)
+  end.
+Proof. exact exec_silent. Qed.
+Print Assumptions C16_executor_silent_peer.
+
+(* for the send-phase futures a completion counts as sent exactly when the write phase was completed:
+   the quorum is counted over frames that really left the node *)
+Theorem C16_executor_sent :
+  forall T k w r,
+  k = FReqEat \/ k = FSend -> sent_res (fst (exec T k w r)) = written T w.
+Proof. exact exec_sent. Qed.
+Print Assumptions C16_executor_sent.
 
 (* the shipped parallelism factor and executor timeouts satisfy what is assumed above *)
 Theorem C16_default_config :
@@ -379,3 +610,48 @@ Example C16_nonvacuous_compose :
           UStoreRecord 7; UCmd 1 (UCGet QOne 7) [true; false]]) =
   [ORouting [1]; OFindNodeSuccess 0 [0]; OPartial 1 99 LOCAL_REC; OGetRecSuccess 1].
 Proof. split; [exact ex_wc_ok | vm_compute; reflexivity]. Qed.
+
+(* the new layers are not vacuous.  Requests of remote peers: the reply to an inbound FIND_NODE names the
+   peer the user added to the table.  Refresh timers: the timer of a provided key starts a refresh with
+   the quorum of start_providing; after stop_providing it fires without effect.  Manual validation:
+   an inbound PUT_VALUE leaves the store empty, in the Automatic mode it is stored *)
+Example C16_nonvacuous_inbound_refresh :
+  let W0 := w0 ex_wc [(0, 2); (1, 2)] 2 in
+  let pre := [UAddKnownPeer 0 true; UEv (EEstablished 1 true); UEv (EInbound 1 100)] in
+  let w := fst (crun ex_wc W0 pre) in
+  reply_of ex_wc w (UInReq 100 (IFindNode [true; true])) = Some (false, [0]) /\
+  map V.C17.Model.r_key (V.C17.Model.recs (w_store (fst (fst (cstep ex_wc w (UInReq 100 (IPutValue 5))))))) = [5] /\
+  (let wm := mkWC (wc_g ex_wc) (wc_keys ex_wc) (wc_pool ex_wc) (wc_K ex_wc) (wc_scfg ex_wc) (wc_ttl ex_wc) true false in
+   V.C17.Model.recs (w_store (fst (fst (cstep wm (fst (crun wm (w0 wm [(0, 2); (1, 2)] 2) pre))
+                                             (UInReq 100 (IPutValue 5)))))) = []) /\
+  (let w1 := fst (crun ex_wc W0 [UCmd 0 (UCProv QOne 5) [true; true]]) in
+   fst (fst (elab ex_wc w1 (UFire 1 5 [true; true]))) = ECmd 1 (CRefresh QOne) [1; 0] [] /\
+   w_timers (fst (fst (cstep ex_wc w1 (UFire 1 5 [true; true])))) = [5]) /\
+  (let w2 := fst (crun ex_wc W0 [UCmd 0 (UCProv QOne 5) [true; true]; UStopProviding 5]) in
+   fst (fst (elab ex_wc w2 (UFire 1 5 [true; true]))) = ENop /\
+   w_timers (fst (fst (cstep ex_wc w2 (UFire 1 5 [true; true])))) = []).
+Proof. vm_compute. repeat split; reflexivity. Qed.
+
+(* a timed, fair schedule: the substream is opened 5 time units after it was asked for, the reply comes 7
+   later; D = 10 is respected, and the lookup ends at time 12 <= D * 3 *)
+Example C16_nonvacuous_timed :
+  let g := mkG 20 3 99 10 in
+  let s0 := fst (run g (st0 [(0, 2)]) [EEstablished 0 true; ECmd 0 CFindNode [0] [0]; EServe 0]) in
+  let es1 := [ETick 5; EOpened 0 0; ETick 7; EFut 0 (RRead (MFindNode [])); EServe 0] in
+  okeys s0 = [(1, 0)] /\ timed 10 g s0 (restamp (now s0) [] (okeys s0)) es1 /\ fair_run g s0 es1 /\
+  now (fst (run g s0 es1)) = 12 /\ snd (run g s0 es1) = [ORouting []; OFindNodeSuccess 0 [0]].
+Proof.
+  split; [vm_compute; reflexivity |]. split.
+  - cbn [timed is_tick]. split; [vm_compute; reflexivity |]. split.
+    + intros k t0 H. vm_compute in H. destruct H as [H | []]. inversion H. subst. vm_compute. discriminate.
+    + split; [vm_compute; reflexivity |]. split; [| exact I].
+      intros k t0 H. vm_compute in H. destruct H as [H | []]. inversion H. subst. vm_compute. discriminate.
+  - split.
+    + cbn [fair_run is_input is_tick]. split; [reflexivity |]. split; [left; reflexivity |].
+      split; [reflexivity |]. split.
+      { right. cbn [productive]. vm_compute. eexists. eexists. split; reflexivity. }
+      split; [reflexivity |]. split; [left; reflexivity |]. split; [reflexivity |]. split.
+      { right. cbn [productive]. vm_compute. eexists. split; reflexivity. }
+      split; [reflexivity |]. split; [| exact I]. right. vm_compute. reflexivity.
+    + vm_compute. split; reflexivity.
+Qed.
